@@ -362,6 +362,7 @@ func checkC01(c *Ctx) {
 	checkC01NilContra(c, reachFns)
 	checkC01Input(c)
 	checkC01Division(c, reachFns)
+	checkSelfDeadlock(c, "C01.self-deadlock")
 
 	// ---- post-check shared with C06
 	checkC06Clamps(c)
@@ -807,6 +808,29 @@ func checkC01Input(c *Ctx) {
 			}
 		}
 		r.Check(!spins, "C01.eof-propagates", fnName(W)+":error-leaves-loop", p.IPos(rd), "no back edge is reachable with a non-nil read error", "the read loop can iterate again after a failed read (a non-EOF error, or EOF with no key, `continue`s): on a dead terminal the call spins at 100% CPU")
+		// (a') every return reachable after a failed read hands the error back
+		if errv != nil && W.Signature.Results().Len() > 0 {
+			bfW := blockFacts(W)
+			okErr := true
+			eachInstr(W, func(in ssa.Instruction) {
+				ret, ok := in.(*ssa.Return)
+				if !ok || in.Block() == W.Recover {
+					return
+				}
+				if !knownNonNil(bfW[in.Block()], errv) {
+					return
+				}
+				for _, v := range mayValues(ret.Results[0]) {
+					if isNilConst(v) {
+						okErr = false
+					}
+				}
+				if !dependsOn(ret.Results[0], func(x ssa.Value) bool { return x == errv }) {
+					okErr = false
+				}
+			})
+			r.Check(okErr, "C01.eof-propagates", fnName(W)+":failed-read-returns-error", p.IPos(rd), "a failed read is always reported", "a path returns nil although the terminal read failed: with keys still pending (a half-typed sequence) the main loop re-parks them and spins without ever blocking or returning")
+		}
 		// (b) WaitAvailableKeys reports the condition
 		reports := W.Signature.Results().Len() > 0
 		r.Check(reports, "C01.eof-propagates", fnName(W)+":reports-status", p.Pos(W.Pos()), "returns a status/error", "WaitAvailableKeys has no result: Readline cannot tell end-of-input from a key and re-dispatches the previous command forever (or panics on an empty key)")
@@ -836,8 +860,14 @@ func checkC01Input(c *Ctx) {
 		}
 	}
 
-	// chan: unconditional sends on unbuffered channels on the input path
-	r.Rule("C01.chan", "K6", "every channel send on the input path is on a buffered channel or inside a select with an alternative", 1)
+	checkChanProtocol(c, "C01.chan")
+}
+
+// checkChanProtocol: unconditional sends on unbuffered channels on the input path.
+func checkChanProtocol(c *Ctx, rule string) {
+	p, r := c.P, c.R
+	cp := p.Pkg("internal/core")
+	r.Rule(rule, "K6", "every channel send on the input path is on a buffered channel or inside a select with an alternative", 1)
 	nSend := 0
 	for _, f := range p.RepoFuncs {
 		if f.Package() == nil || cp == nil || f.Package().Pkg != cp.Types {
@@ -863,15 +893,15 @@ func checkC01Input(c *Ctx) {
 			buffered := chanFieldBuffered(p, sd.Chan)
 			if !buffered {
 				if ok, why := sendOnlyCrossGoroutine(p, f, sd); ok {
-					r.OK("C01.chan", key, p.IPos(in), "not reachable in the sequential flow: "+why)
+					r.OK(rule, key, p.IPos(in), "not reachable in the sequential flow: "+why)
 					return
 				}
 			}
-			r.Check(buffered, "C01.chan", key, p.IPos(in), "buffered channel", "unconditional send on the unbuffered channel "+desc+": if no receiver is parked on that very channel (stray or late terminal reply, channel re-created meanwhile) the main loop blocks forever")
+			r.Check(buffered, rule, key, p.IPos(in), "buffered channel", "unconditional send on the unbuffered channel "+desc+": if no receiver is parked on that very channel (stray or late terminal reply, channel re-created meanwhile) the main loop blocks forever")
 		})
 	}
 	if nSend == 0 {
-		r.OK("C01.chan", "no-sends", "-", "no channel send in internal/core")
+		r.OK(rule, "no-sends", "-", "no channel send in internal/core")
 	}
 }
 
@@ -1175,4 +1205,62 @@ func nonZeroKnown(bf FactMap, at ssa.Instruction, v ssa.Value, depth int) bool {
 		}
 	}
 	return false
+}
+
+// checkSelfDeadlock: no call, while a (non-reentrant) mutex is held, to a module
+// function that takes the same mutex (directly or through its callees).
+func checkSelfDeadlock(c *Ctx, rule string) {
+	p, r := c.P, c.R
+	r.Rule(rule, "K8", "no function calls, while holding a mutex, a module function that (transitively) locks the same mutex", 1)
+	// which functions lock which mutex directly
+	locks := map[*ssa.Function]map[string]bool{}
+	for _, f := range p.RepoFuncs {
+		eachInstr(f, func(in ssa.Instruction) {
+			if path, op, ok := lockOp(in); ok && (op == 'L' || op == 'R') {
+				if locks[f] == nil {
+					locks[f] = map[string]bool{}
+				}
+				locks[f][path] = true
+			}
+		})
+	}
+	n := 0
+	for _, f := range p.RepoFuncs {
+		if locks[f] == nil {
+			continue
+		}
+		ls := locksets(f)
+		k := 0
+		eachInstr(f, func(in ssa.Instruction) {
+			call, ok := in.(ssa.CallInstruction)
+			if !ok || len(ls[in]) == 0 {
+				return
+			}
+			if _, _, isLock := lockOp(in); isLock {
+				return
+			}
+			if _, isDefer := in.(*ssa.Defer); isDefer {
+				return
+			}
+			callee := staticCallee(call)
+			if callee == nil || !inRepo(callee) {
+				return
+			}
+			reach := p.reachFrom([]*ssa.Function{callee}, nil)
+			for held := range ls[in] {
+				for g := range reach {
+					if locks[g][held] {
+						n++
+						r.Fn(fnName(f))
+						r.Bad(rule, fmt.Sprintf("%s:call(%s)-holding(%s)#%d", fnName(f), fnName(callee), held, k), p.IPos(in), "calls "+fnName(callee)+" while holding "+held+", which "+fnName(g)+" locks again: sync mutexes are not reentrant, the call blocks forever")
+						k++
+						return
+					}
+				}
+			}
+		})
+	}
+	if n == 0 {
+		r.OK(rule, "no-reentrant-locking", "-", fmt.Sprintf("%d locking functions inspected", len(locks)))
+	}
 }
